@@ -193,7 +193,7 @@ func runCase(t *rapid.T, e node) {
 	}
 	n := rapid.IntRange(3, 70).Draw(t, "nsteps")
 	for i := 0; i < n; i++ {
-		switch rapid.IntRange(0, 10).Draw(t, "op") {
+		switch rapid.IntRange(0, 11).Draw(t, "op") {
 		case 0, 1, 2:
 			start()
 		case 3, 4, 5:
@@ -216,6 +216,17 @@ func runCase(t *rapid.T, e node) {
 			leave := rapid.IntRange(0, 1).Draw(t, "leave")
 			for len(d.InFlight) > leave {
 				finish(len(d.InFlight)-1, st)
+			}
+		case 11: // a long quiet run of slow responses: the latency histogram wraps around (6 x 10 s)
+			rounds := rapid.IntRange(6, 9).Draw(t, "longRounds")
+			lat := rapid.SampledFrom([]int64{1, 300, 1000}).Draw(t, "longLatency")
+			for r := 0; r < rounds; r++ {
+				start()
+				adv(lat)
+				if len(d.InFlight) > 0 {
+					finish(len(d.InFlight)-1, rapid.SampledFrom([]int{200, 200, 201, 404}).Draw(t, "longStatus"))
+				}
+				adv(10000 + rapid.Int64Range(0, 1500).Draw(t, "longGap"))
 			}
 		case 8:
 			adv(ms(P) + rapid.Int64Range(-1, 2).Draw(t, "aroundP"))
